@@ -70,6 +70,7 @@ struct pstate {
     cstl_vector_t vec; cstl_string_t str, str2;
     uint32_t arr[48]; size_t arrn; uint32_t scratch;
     cstl_shared_ptr_t sp[3]; cstl_weak_ptr_t wp[2]; int cleared;
+    cstl_array_t ar[3]; uint32_t ext[24]; int ext_user;       /* ext_user: which array object was set() over ext[], -1 none */
     prng_t rnd;                 /* this thread's rand() */
     struct pord ord;            /* this thread's ordering */
     int odd;                    /* odd threads use the mirrored comparison function with the mirrored direction: same order, other function */
@@ -209,6 +210,14 @@ static uint64_t snap(struct pstate *s)
     case 11:
         for (i = 0; i < s->arrn; i++) h = fnv1a(h, s->arr[i]);
         break;
+    case 14: {
+        for (i = 0; i < 3; i++) {
+            size_t n = cstl_array_size(&s->ar[i]), q; const unsigned char *d = cstl_array_data_const(&s->ar[i]);
+            h = fnv1a(h, n); h = fnv1a(h, d != NULL);                   /* contents identify the view; addresses differ from pass to pass */
+            for (q = 0; q < n && q < 24; q++) h = fnv1a(h, *(const uint32_t *)cstl_array_at_const(&s->ar[i], q));
+        }
+        break;
+    }
     case 5:
         for (i = 0; i < 3; i++) { h = fnv1a(h, cstl_shared_ptr_get(&s->sp[i]) != NULL); h = fnv1a(h, cstl_shared_ptr_unique(&s->sp[i])); }
         h = fnv1a(h, (uint64_t)s->cleared);
@@ -246,6 +255,7 @@ static void st_init(struct pstate *s, int t, uint64_t seed, unsigned junk)
     case 9: cstl_vector_init(&s->vec, sizeof(uint32_t)); break;
     case 10: cstl_string_init(&s->str); cstl_string_init(&s->str2); break;
     case 5: for (i = 0; i < 3; i++) cstl_shared_ptr_init(&s->sp[i]); for (i = 0; i < 2; i++) cstl_weak_ptr_init(&s->wp[i]); break;
+    case 14: for (i = 0; i < 3; i++) cstl_array_init(&s->ar[i]); for (i = 0; i < 24; i++) s->ext[i] = (uint32_t)(t * 1000 + i); s->ext_user = -1; break;
     }
     /* trees start with a dozen elements so that erases meet every shape from the first operation on */
     if (kind_g == 1 || kind_g == 2)
@@ -267,6 +277,7 @@ static void st_fini(struct pstate *s)
     case 9: cstl_vector_clear(&s->vec); break;
     case 10: cstl_string_clear(&s->str); cstl_string_clear(&s->str2); break;
     case 5: for (i = 0; i < 3; i++) cstl_shared_ptr_reset(&s->sp[i]); for (i = 0; i < 2; i++) cstl_weak_ptr_reset(&s->wp[i]); break;
+    case 14: for (i = 0; i < 3; i++) cstl_array_reset(&s->ar[i]); break;
     }
     g_inlib = 0;
 }
@@ -412,6 +423,31 @@ static uint64_t do_op(struct pstate *s, const op_t *o)
         }
         break;
     }
+    case 14: {
+        int i = (int)(a % 3), j = (int)(b % 3); size_t n = cstl_array_size(&s->ar[i]), q;
+        switch (sel % 6) {
+        case 0: {
+            size_t nn = 1 + (size_t)(a % 20);
+            L(cstl_array_alloc(&s->ar[i], nn, sizeof(uint32_t)));
+            for (q = 0; q < cstl_array_size(&s->ar[i]); q++) *(uint32_t *)cstl_array_at(&s->ar[i], q) = (uint32_t)(prng_next(&s->rnd) % 1000);
+            break;
+        }
+        case 1: case 2: if (n) { size_t beg = (size_t)(a % (n + 1)), end = beg + (size_t)(b % (n - beg + 1)); L(cstl_array_slice(&s->ar[i], beg, end, &s->ar[j])); } break;
+        case 3: if (n) L(cstl_array_unslice(&s->ar[i], &s->ar[j])); break;
+        case 4: L(cstl_array_reset(&s->ar[i])); break;
+        default:
+            /* an external buffer: described by one array object at a time, handed back by release() */
+            if (s->ext_user < 0 && cstl_array_size(&s->ar[0]) + cstl_array_size(&s->ar[1]) + cstl_array_size(&s->ar[2]) == 0) {
+                L(cstl_array_set(&s->ar[i], s->ext, 24, sizeof(uint32_t))); s->ext_user = i;
+            } else if (s->ext_user >= 0) {
+                void *back = NULL; int u;
+                for (u = 0; u < 3; u++) if (u != s->ext_user) L(cstl_array_reset(&s->ar[u]));
+                L(cstl_array_release(&s->ar[s->ext_user], &back));
+                r = back == (void *)s->ext; s->ext_user = -1;
+            }
+        }
+        break;
+    }
     case 5: {
         int i = (int)(a % 3), j = (int)(b % 3), w = (int)(a % 2);
         switch (sel % 8) {
@@ -491,7 +527,7 @@ static void p_exec(const plan_t *p)
     K = (int)p->cfg[CF_K]; if (K < 2) K = 2; if (K > PT) K = PT;
     kind_g = p->mode;
     prop_g = kind_g == 1 ? "C01" : kind_g == 2 ? "C02" : kind_g == 3 ? "C03" : kind_g == 5 ? "C05" : kind_g == 7 ? "C07" : kind_g == 8 ? "C08" :
-             kind_g == 9 ? "C09" : kind_g == 10 ? "C10" : kind_g == 11 ? "C11" : kind_g == 12 ? "C12" : "C13";
+             kind_g == 9 ? "C09" : kind_g == 10 ? "C10" : kind_g == 11 ? "C11" : kind_g == 12 ? "C12" : kind_g == 14 ? "C14" : "C13";
     g_cur_prop = prop_g; g_cur_ctx = "two-threads-distinct-objects";
     Q = p->cfg[CF_QUANT] ? p->cfg[CF_QUANT] : 10;
     prng_seed(&sprng, p->cfg[CF_SSEED]);
